@@ -361,6 +361,10 @@ func suiteMarshal(r *Rng, n int, thorough bool, o *Out) {
 		if !backed {
 			putType(sch, typ.Copy())
 		}
+		schTypes := []stype{{typ: typ, backed: backed}}
+		if r.chance(1, 3) {
+			schTypes = append(schTypes, schemaWithPast(sch, o))
+		}
 		obsU, pvU, back := runUnmarshalRes("UnmarshalResource", out, sch, false)
 		switch {
 		case back == nil && strings.HasPrefix(pvU, "FAIL"):
@@ -408,7 +412,7 @@ func suiteMarshal(r *Rng, n int, thorough bool, o *Out) {
 		o.emit(op, obs, pv)
 		emitJSONText(o, out, obs, tree)
 		// the unmarshaling half of the round trip, against the model's UnmarshalResource
-		o.emit(lst("unm", "res", sxSSchema([]stype{{typ: typ, backed: backed}}), sxResSke(out)), obsU, "na")
+		o.emit(lst("unm", "res", sxSSchema(schTypes), sxResSke(out)), obsU, "na")
 	}
 }
 
